@@ -99,7 +99,7 @@ class BaseCtx:
         """
         raise NotImplementedError
 
-    def fresh_env(self):
+    def fresh_env(self, hashcons="exact"):
         raise NotImplementedError
 
     def concrete(self, x):
@@ -153,6 +153,22 @@ class ReplayCtx(BaseCtx):
     def forall(self, build, concrete, sig, msg):
         i = self._forall_i
         self._forall_i += 1
+        if concrete is None:
+            # every solver variable is concrete now: the oracle term has no free first-stage variable left;
+            # decide it stand-alone (the real code's verdict inside it was computed without tracer or shim)
+            import z3
+
+            viol, _qv = build()
+            if isinstance(viol, bool):
+                if viol:
+                    raise Violation(sig, msg, {})
+                return
+            s = z3.Solver()
+            s.set("timeout", 60000)
+            s.add(viol)
+            if s.check() == z3.sat:
+                raise Violation(sig, msg, {"model": str(s.model())[:500]})
+            return
         for m in self.models:
             if m.get("index") == i:
                 if concrete(m["model"]):
@@ -163,7 +179,7 @@ class ReplayCtx(BaseCtx):
     def feature_set(self, name, free=None, absent=()):
         return set(self._get(name))
 
-    def fresh_env(self):
+    def fresh_env(self, hashcons="exact"):
         from unified_planning.environment import Environment
 
         return Environment()
